@@ -629,6 +629,7 @@ class ImageBatch(DataTensor):
             mode=mode,
             min_size=min_size,
             align_corners=align_corners,
+            grid=self._grid[0],
         )
         grid = tuple(
             grid.downsample(levels, dims=dims, min_size=min_size, align_corners=align_corners)
@@ -663,7 +664,13 @@ class ImageBatch(DataTensor):
         if align_corners is None:
             align_corners = self.align_corners()
         data = U.upsample(
-            self, levels, dims=dims, sigma=sigma, mode=mode, align_corners=align_corners
+            self,
+            levels,
+            dims=dims,
+            sigma=sigma,
+            mode=mode,
+            align_corners=align_corners,
+            grid=self._grid[0],
         )
         grid = tuple(
             grid.upsample(levels, dims=dims, align_corners=align_corners) for grid in self._grid
